@@ -172,3 +172,140 @@ pub fn run(seed: u64, nthreads: usize, plugin: &str) -> Value {
     json!({"seed": seed, "threads": nthreads, "events": events, "hung": hung, "results_ok": results,
            "sync_leak": non_sync_connection_is_sync()})
 }
+
+
+// =====================================================================================================================
+// spec -> impl: a behaviour of Cache.tla (spec/CacheSched.tla) forced on the real threads.
+// The hooks are gates: a thread passes the hook of label l only when the next entry of the schedule is (its id, l);
+// before requesting a mutex (WantT / WantE) it is held back until its Lock entry is next.
+// =====================================================================================================================
+struct Sched {
+    entries: Vec<(u64, String)>,
+    ptr: usize,
+    failed: Option<String>,
+}
+static SCHED: Mutex<Option<Sched>> = Mutex::new(None);
+static SCHED_CV: std::sync::Condvar = std::sync::Condvar::new();
+const GATE_BUDGET_MS: u64 = 8000;
+
+/// blocks until the next schedule entry is (this thread, label); consumes it unless `peek`
+fn gate(label: &str, peek: bool) {
+    let tid = TID.with(|t| t.get());
+    if tid == 0 {
+        return; // not one of the scheduled threads
+    }
+    let t0 = std::time::Instant::now();
+    let mut g = SCHED.lock().unwrap();
+    loop {
+        let s = g.as_mut().expect("schedule installed");
+        if s.failed.is_some() {
+            return; // free-run to the end once the schedule is lost
+        }
+        if s.ptr < s.entries.len() && s.entries[s.ptr].0 == tid && s.entries[s.ptr].1 == label {
+            if !peek {
+                s.ptr += 1;
+                SCHED_CV.notify_all();
+            }
+            return;
+        }
+        // is this step something the model says this thread does NEXT at all?
+        let my_next = s.entries[s.ptr.min(s.entries.len())..].iter().find(|e| e.0 == tid).map(|e| e.1.clone());
+        if my_next.as_deref() != Some(label) {
+            s.failed = Some(format!("thread {} arrives at {:?} but its next step in the model is {:?} (schedule position {})", tid, label, my_next, s.ptr));
+            SCHED_CV.notify_all();
+            return;
+        }
+        let left = GATE_BUDGET_MS.saturating_sub(t0.elapsed().as_millis() as u64);
+        if left == 0 {
+            let want = s.entries.get(s.ptr).cloned();
+            s.failed = Some(format!("thread {} waited at {:?}: the schedule expects {:?} at position {} but that step never happened", tid, label, want, s.ptr));
+            SCHED_CV.notify_all();
+            return;
+        }
+        g = SCHED_CV.wait_timeout(g, std::time::Duration::from_millis(left.min(200))).unwrap().0;
+    }
+}
+fn sched_hook(label: &'static str, _key: u64) {
+    match label {
+        "WantT" => gate("LockT", true),
+        "WantE" => gate("LockE", true),
+        "CreateInstance" => {}
+        l => gate(l, false),
+    }
+}
+
+/// rec: {progs: [[{op,k,k2}..]..], sched: [{t,l}..]}
+pub fn run_schedule(rec: &Value, plugin: &str) -> Value {
+    let entries: Vec<(u64, String)> = rec["sched"]
+        .as_array()
+        .unwrap()
+        .iter()
+        .filter(|e| e["l"] != "Symbol") // (no linearisation point of its own in the code: it happens between LockL and UnlockL)
+        .map(|e| (e["t"].as_u64().unwrap(), e["l"].as_str().unwrap().to_string()))
+        .collect();
+    let total = entries.len();
+    *SCHED.lock().unwrap() = Some(Sched { entries, ptr: 0, failed: None });
+    savefile_abi::verif_hooks::SINK.set(Box::new(sched_hook)).ok();
+    let progs = rec["progs"].as_array().unwrap().clone();
+    let nthreads = progs.len();
+    let finished = Arc::new(AtomicU64::new(0));
+    let results_ok = Arc::new(Mutex::new(true));
+    for (t, prog) in progs.into_iter().enumerate() {
+        let finished = finished.clone();
+        let results_ok = results_ok.clone();
+        let plugin = plugin.to_string();
+        std::thread::spawn(move || {
+            TID.with(|x| x.set(t as u64 + 1));
+            let mut ok = true;
+            let mut calls: Vec<AbiConnection<CallIfaceDyn>> = vec![];
+            let mut plugs: Vec<AbiConnection<dyn PlugIface>> = vec![];
+            for op in prog.as_array().unwrap() {
+                let (kind, k) = (op["op"].as_str().unwrap(), op["k"].as_u64().unwrap());
+                gate("Start", false);
+                match (kind, k) {
+                    ("create", 1) => match self_test_iface() {
+                        Ok(c) => calls.push(c),
+                        Err(_) => ok = false,
+                    },
+                    ("create", 2) => match crate::calls::obj_connection(500 + t as u32) {
+                        Ok(id) => ok &= id == 500 + t as u32,
+                        Err(_) => ok = false,
+                    },
+                    ("load", 3) => match AbiConnection::<dyn PlugIface>::load_shared_library(&plugin) {
+                        Ok(c) => plugs.push(c),
+                        Err(_) => ok = false,
+                    },
+                    ("call", 1) => {
+                        ok &= crate::calls::call_add(calls.last().expect("model guard"), 5) == 6;
+                        gate("CallEnd", false);
+                    }
+                    ("call", 3) => {
+                        ok &= plugs.last().expect("model guard").twice(4) == 8;
+                        gate("CallEnd", false);
+                    }
+                    ("nested", 1) => {
+                        // the boxed trait object makes the implementation create a connection of interface 2 during the call
+                        ok &= crate::calls::call_take_obj(calls.last().expect("model guard"), 77) == 77;
+                        gate("CallEnd", false);
+                    }
+                    other => panic!("harness: unknown op {:?}", other),
+                }
+                gate("OpDone", false);
+            }
+            drop(calls);
+            drop(plugs);
+            if !ok {
+                *results_ok.lock().unwrap() = false;
+            }
+            finished.fetch_add(1, Ordering::SeqCst);
+        });
+    }
+    let t0 = std::time::Instant::now();
+    while finished.load(Ordering::SeqCst) < nthreads as u64 && t0.elapsed().as_secs() < 30 {
+        std::thread::sleep(std::time::Duration::from_millis(1));
+    }
+    let hung = finished.load(Ordering::SeqCst) < nthreads as u64;
+    let g = SCHED.lock().unwrap();
+    let s = g.as_ref().unwrap();
+    json!({"followed": s.ptr, "total": total, "failed": s.failed, "hung": hung, "results_ok": *results_ok.lock().unwrap()})
+}
